@@ -142,9 +142,13 @@ def _c10():
 
 
 def _c06():
-    hs = step_harnesses() + num_op_harnesses() + truth_harnesses()
-    hs += disp_harnesses(["access", "apply"], tags="pair list expression partial external number symbol concatenation".split())
-    hs += disp_harnesses(["access", "apply"], tier="thorough", tags="unit type char char_list byte byte_list symbol_list range slice true false custom".split())
+    qn = "add divide power bitwise_shift_left".split()
+    hs = step_harnesses()
+    hs += [dict(h, tier="quick" if any(h["name"] == "c08_op_%s" % o for o in qn + ["opposite"]) else "thorough") for h in num_op_harnesses()]
+    hs += truth_harnesses()
+    qt = "pair list expression partial".split()
+    hs += disp_harnesses(["access", "apply"], tags=qt)
+    hs += disp_harnesses(["access", "apply"], tier="thorough", tags=[t for t in TAGS if t not in qt])
     hs += disp_harnesses(["apply_type"] + DISP_UN, tier="thorough")
     hs += STORE_FRAMES
     return {
@@ -244,9 +248,14 @@ def _c17():
 
 def _c07():
     c09 = _c09()["harnesses"]
-    hs = [dict(h) for h in c09 if h["tier"] == "quick" and "_kf_" not in h["name"] and ("_ii_" in h["name"] or "_i_unary" in h["name"] or h["name"].endswith("_plus") or h["name"].endswith("_power") or h["name"].endswith("_remainder") or "unary" in h["name"])]
-    hs += retier(num_op_harnesses(), "quick")
-    hs += disp_harnesses(["access", "apply", "apply_type"])
+    ii = [dict(h) for h in c09 if h["tier"] == "quick" and "_kf_" not in h["name"] and ("_ii_" in h["name"] or "_i_unary" in h["name"])]
+    fl = [dict(h, tier="thorough") for h in c09 if h["tier"] == "quick" and "_kf_" not in h["name"] and h["group"] == "c09" and not ("_ii_" in h["name"] or "_i_unary" in h["name"])]
+    hs = ii + fl
+    hs += retier(num_op_harnesses(), "thorough")
+    qa = "pair list char_list byte_list symbol_list range concatenation slice number symbol".split()
+    qc = "char_list range list number concatenation slice symbol_list byte_list".split()
+    hs += disp_harnesses(["access", "apply"], tags=qa) + disp_harnesses(["apply_type"], tags=qc)
+    hs += disp_harnesses(["access", "apply"], tier="thorough", tags=[t for t in TAGS if t not in qa]) + disp_harnesses(["apply_type"], tier="thorough", tags=[t for t in TAGS if t not in qc])
     hs += disp_harnesses(DISP_UN, tier="thorough")
     hs += retier(step_harnesses(), "thorough") + retier(truth_harnesses(), "thorough")
     hs += [h for h in STORE_LISTS if "_kf" not in h["name"]] + STORE_FRAMES + STORE_READBACK
@@ -351,7 +360,20 @@ def build_properties(tsv):
         p["harnesses"] = list(p["harnesses"]) + tmpl_harnesses(rows, "prog", pid, extra_what)
         p["bounds"] = p.get("bounds", "") + " || program-level: " + PROG_NOTE
         props[pid] = p
-    return {k: v for k, v in props.items() if v["harnesses"]}
+    out = {}
+    for k, v in props.items():
+        seen = {}
+        for h in v["harnesses"]:
+            if h["name"] in seen:
+                if h["tier"] == "quick":
+                    seen[h["name"]]["tier"] = "quick"
+                continue
+            seen[h["name"]] = dict(h)
+        if seen:
+            v = dict(v)
+            v["harnesses"] = list(seen.values())
+            out[k] = v
+    return out
 
 
 PROPERTIES_STATIC = {
